@@ -29,6 +29,7 @@ def run(ctx):
     ctx.each(r06g, ctx, repo)
     ctx.each(r06h, ctx, repo)
     ctx.each(r06i, ctx, repo)
+    ctx.each(r06k, ctx, repo)
     from . import c04
 
     ctx.each(c04.r04e, ctx, repo)  # parameters at the first index are functions of the post-flush sizes
@@ -591,3 +592,40 @@ def r06i(ctx, repo):
         g = [(ast.unparse(t), pol) for t, pol in guards_of(c, stop=lp[0] if lp else None)]
         ok = ok and g == [("isinstance(%s, Characteristic)" % x, True)]
     ctx.check(ok, "R06i", so, ch[0], "characteristic order: includes and denominator before the characteristic", "the characteristic ordering graph lacks an edge (included characteristic -> characteristic, denominator -> characteristic, each under its isinstance test): a characteristic built from another one can be summed before its member is updated, so it reports last step's value")
+
+
+def r06k(ctx, repo):
+    from ..core import boolx as B
+
+    ctx.rule("R06k", "interaction weights and transfers are laid out as the databook gives them: the interaction array of Model.build has one row per population of the interaction's 'from' type and one column per population of its 'to' type (in model order), each entered value goes to [row of its from-population, column of its to-population, all times]; each transfer creates one parameter per (source, target) pair whose links connect every ordinary compartment of the source population with the compartment of the same name in the target population")
+    fi = repo.func("model", "Model.build")
+    me = K.self_name(fi)
+    env = {}
+    for s in own_nodes(fi.node):
+        if isinstance(s, ast.Assign) and isinstance(s.targets[0], ast.Name) and s.targets[0].id in ("from_pops", "to_pops"):
+            env[s.targets[0].id] = s
+    for nm, col in (("from_pops", "from population type"), ("to_pops", "to population type")):
+        s = env.get(nm)
+        ok = s is not None and isinstance(s.value, ast.ListComp) and ast.unparse(s.value.generators[0].iter) == "%s.pops" % me and ast.unparse(s.value.elt) == "%s.name" % ast.unparse(s.value.generators[0].target) and len(s.value.generators[0].ifs) == 1 and B.equivalent(B.of(s.value.generators[0].ifs[0]), B.parse_cond("%s.type == %s.framework.interactions.at[name, '%s']" % (ast.unparse(s.value.generators[0].target), me, col)))
+        ctx.check(ok, "R06k", fi, s if s is not None else fi.node, "%s = populations of the interaction's %s" % (nm, col), "`%s` is not the list of populations whose type equals the interaction's '%s': weights are stored against the wrong populations" % (norm(s)[:80] if s is not None else nm, col), stmt_text="interaction-axis:%s" % nm)
+    alloc = [s for s in own_nodes(fi.node) if isinstance(s, ast.Assign) and ast.unparse(s.targets[0]) == "%s.interactions[name]" % me]
+    ok = len(alloc) == 1 and ast.unparse(alloc[0].value) == "np.zeros((len(from_pops), len(to_pops), len(%s.t)))" % me
+    ctx.check(ok, "R06k", fi, alloc[0] if alloc else fi.node, "array shape = (from, to, time), zero where nothing was entered", "the interaction array is not np.zeros((len(from_pops), len(to_pops), len(self.t)))", stmt_text="interaction-shape")
+    st = [s for s in own_nodes(fi.node) if isinstance(s, ast.Assign) and isinstance(s.targets[0], ast.Subscript) and ast.unparse(s.targets[0].value) == "%s.interactions[name]" % me]
+    ok = len(st) == 1 and ast.unparse(st[0].targets[0].slice) == "(from_pops.index(from_pop), to_pops.index(to_pop), slice(None, None, None))".replace("slice(None, None, None)", ":") or (len(st) == 1 and [ast.unparse(e) for e in st[0].targets[0].slice.elts[:2]] == ["from_pops.index(from_pop)", "to_pops.index(to_pop)"] and isinstance(st[0].targets[0].slice.elts[2], ast.Slice))
+    if ok:
+        ok = "interpolate(%s.t, to_pop)" % me in ast.unparse(st[0].value) and "y_factor[to_pop]" in ast.unparse(st[0].value)
+    ctx.check(ok, "R06k", fi, st[0] if st else fi.node, "value stored at [from, to, :] from the series of that pair", "the interaction value is not stored at [from_pops.index(from_pop), to_pops.index(to_pop), :] from the series and factors of the same (from, to) pair", stmt_text="interaction-store")
+    # transfers
+    conn = [c for c in own_nodes(fi.node) if isinstance(c, ast.Call) and isinstance(c.func, ast.Attribute) and c.func.attr == "connect" and ast.unparse(c.func.value) == "src"]
+    ok = len(conn) == 1 and [ast.unparse(a) for a in conn[0].args] == ["dest", "par"]
+    if ok:
+        lp = K.enclosing_loops(conn[0])[0]
+        ok = ast.unparse(lp.iter) == "pop.comps" and B.equivalent(B.cond(guards_of(enclosing_stmt(conn[0]), stop=lp)), B.parse_cond("not (isinstance(src, SourceCompartment) or isinstance(src, SinkCompartment) or isinstance(src, JunctionCompartment))"))
+        d = [s for s in lp.body[0].body if isinstance(s, ast.Assign) and astq.is_name(s.targets[0], "dest")] if isinstance(lp.body[0], ast.If) else []
+        ok = ok and len(d) == 1 and ast.unparse(d[0].value) == "target_pop_obj.get_comp(src.name)"
+    ctx.check(ok, "R06k", fi, enclosing_stmt(conn[0]) if conn else fi.node, "transfer links: every ordinary compartment -> same compartment in the target population", "a transfer does not connect every ordinary (non-source, non-sink, non-junction) compartment of the source population to the compartment of the same name in the target population with the transfer's parameter", stmt_text="transfer-links")
+    tp = [s for s in own_nodes(fi.node) if isinstance(s, ast.Assign) and astq.is_name(s.targets[0], "target_pop_obj")]
+    pp = [s for s in own_nodes(fi.node) if isinstance(s, ast.Assign) and astq.is_name(s.targets[0], "pop") and "get_pop(" in ast.unparse(s.value)]
+    ok = len(tp) == 1 and ast.unparse(tp[0].value) == "%s.get_pop(pop_target)" % me and len(pp) == 1 and ast.unparse(pp[0].value) == "%s.get_pop(pop_source)" % me
+    ctx.check(ok, "R06k", fi, tp[0] if tp else fi.node, "source and target populations looked up by their own names", "the transfer's source / target population objects are not looked up as get_pop(pop_source) / get_pop(pop_target)", stmt_text="transfer-pops")
